@@ -253,11 +253,22 @@ def fields_mapping_facts():
     pat = canon_globals(m, norm_expr(ast.parse(
         f"f'{{_ANYK_}}_' if {FIELD}.field_pb.name in utils.RESERVED_NAMES else _ANYK_", mode="eval").body))
     facts = {"fi": fi, "key_rule": False, "key_pos": False, "order": False, "shown": "", "proto_plus_only": False}
-    node, b = find_match_ast(pat_pp, nf)
-    if node is not None:
-        facts["proto_plus_only"] = True
-    else:
-        node, b = find_match_ast(pat, nf)
+    # the (key, field) generator may live in a sibling helper method: look at the function and at the helpers it calls
+    views = helper_views(m, fi, keep={"RESERVED_NAMES", "get_field", "OrderedDict"})
+    node = b = None
+    nf_main = nf
+    for v_ in views:
+        node, b = find_match_ast(pat_pp, v_)
+        if node is not None:
+            facts["proto_plus_only"] = True
+            nf = v_
+            break
+    if node is None:
+        for v_ in views:
+            node, b = find_match_ast(pat, v_)
+            if node is not None:
+                nf = v_
+                break
     if node is None:
         return facts
     K = b["_ANYK_"]
@@ -272,13 +283,15 @@ def fields_mapping_facts():
                 and ast.unparse(n.value) == field_src:
             facts["key_pos"] = True
     iters = []
-    for n in ast.walk(nf):
-        if isinstance(n, ast.For):
-            iters.append(ast.unparse(n.iter))
-        elif isinstance(n, ast.comprehension):
-            iters.append(ast.unparse(n.iter))
+    for v_ in views:
+        for n in ast.walk(v_):
+            if isinstance(n, ast.For):
+                iters.append(ast.unparse(n.iter))
+            elif isinstance(n, ast.comprehension):
+                iters.append(ast.unparse(n.iter))
     V = K[: -len(".strip()")] if facts["key_rule"] else None
-    reorder = [c for c in ast.walk(nf) if isinstance(c, ast.Call) and ast.unparse(c.func).split(".")[-1] in ("sorted", "set", "frozenset", "reversed", "sort", "reverse")]
+    reorder = [c for v_ in views for c in ast.walk(v_) if isinstance(c, ast.Call)
+               and ast.unparse(c.func).split(".")[-1] in ("sorted", "set", "frozenset", "reversed", "sort", "reverse")]
     facts["order"] = "signatures" in iters and any(it.endswith(".split(',')") for it in iters) and not reorder
     return facts
 
@@ -485,3 +498,42 @@ def try_parse_http_rule_table():
         if v != want:
             bad.append(f"verb={verb!r} uri={uri!r} body={body!r}: {v!r}, expected {want!r}")
     return bad, ast.unparse(e)[:160], tp
+
+
+def helper_views(m, fi, keep=()):
+    """[normal form of `fi`] followed by the normal form of every repository helper it calls directly (method of the same class or module
+    function that is NOT reducible to one expression - those are inlined by Engine N anyway), with the helper's parameters replaced by
+    the caller's argument expressions (caller locals resolved).  Lets a rule written for "the function" also see a loop or generator that
+    a refactoring moved into a sibling helper."""
+    from ..pymodel import nfunc
+    from ..pynorm import normalizer, subst
+    N = normalizer(m)
+    nf = nfunc(m, fi, keep=set(keep))
+    views = [nf]
+    env = dict(local_env(nf))
+    raw_env = dict(local_env(fi.node))
+    seen = {fi.qual}
+    for tree, e_ in ((nf, env), (fi.node, raw_env)):
+        for c in ast.walk(tree):
+            if not isinstance(c, ast.Call):
+                continue
+            try:
+                t = N._callee(fi, c, {})
+            except Exception:
+                t = None
+            if t is None or t[2] or not t[0].qual.startswith("gapic.") or t[0].qual in seen:
+                continue
+            seen.add(t[0].qual)
+            a_ = t[0].node.args
+            formal = [x.arg for x in a_.posonlyargs + a_.args]
+            decs = [ast.unparse(d) for d in t[0].node.decorator_list]
+            if t[0].cls is not None and "staticmethod" not in decs and formal and formal[0] in ("self", "cls"):
+                formal = formal[1:]
+            mp = {name: subst(subst(arg, e_), e_) for name, arg in zip(formal, c.args)}
+            mp.update({k.arg: subst(subst(k.value, e_), e_) for k in c.keywords if k.arg})
+            hv = nfunc(m, t[0], keep=set(keep))
+            import copy
+            hv = copy.deepcopy(hv)
+            hv.body = [subst(st, mp) for st in hv.body]
+            views.append(hv)
+    return views
